@@ -11,6 +11,7 @@ package interp
 // under a preemption bound.
 
 import (
+	"os"
 	"fmt"
 	"go/token"
 	"go/types"
@@ -310,6 +311,12 @@ func (i *interpreter) block(what string, canRun func() bool) {
 	s := i.sched
 	self := i.curG
 	if self == nil {
+		if os.Getenv("GOSYM_DEBUG_UNSUPPORTED") != "" {
+			for _, g := range s.gs {
+				fmt.Fprintf(os.Stderr, "  g%d done=%v started=%v what=%q\n", g.id, g.done, g.started, g.what)
+			}
+			fmt.Fprintf(os.Stderr, "  go stack: %s\n", shortStack())
+		}
 		i.unsupported("blocking operation outside a goroutine context: %s", what)
 	}
 	for !canRun() {
